@@ -163,13 +163,20 @@ CLAIMED = {
               "0 <= k1 <= 128, 0 <= b <= 1; relative error <= 2^-17 (proved: 2^-20) w.r.t. the real formula for tf and "
               "len up to 2^18, avg in [2^-32, 2^18], idf in [2^-64, 2^64], EVERY k1 in [2^-32, 2^10] and EVERY 0 <= b < 1 "
               "(C04_accuracy), and for the default similarity (1.2f, 0.75f) against the formula at 6/5, 3/4 "
-              "(C04_default_accuracy); over R: legacy = (k1+1) * modern, positive denominator, idf > 0. The check compares real score() bit patterns with the model, and with a float64 "
+              "(C04_default_accuracy); over R: legacy = (k1+1) * modern, positive denominator, idf > 0. The STATISTICS handed to the "
+              "similarity (Score/Score_Stats.v, closed): for every corpus within the limits, batch size and term (present or "
+              "absent) the call receives the term-frequency vector, [df], all document lengths, the total and N "
+              "(C04_statistics_single_term); for every term list of >= 2 terms the phrase-frequency vector (the exact "
+              "occurrence counts when two different terms are mentioned, the C03 bounds otherwise), one document frequency per "
+              "term in order, and the same corpus statistics (C04_statistics_phrase, C04_statistics_phrase_exact); the default "
+              "score is the kernel applied to exactly these (C04_default_score_over_the_statistics); the phrase idf of "
+              "similarity.py's formula is a sum over the terms, order-independent and positive (C04_phrase_idf_*). The check compares real score() bit patterns with the model, and with a float64 "
               "evaluation on the spec's statistics; a recording similarity checks the statistics handed over."),
         design_ref="DESIGN.md 7 (C04)",
-        note=COMMON_NOTE + "numpy log (idf) is an input; IEEE-754 conformance of the CPU (no FMA contraction) assumed. NOT a theorem: "
-             "that the similarity is CALLED with exactly the term-frequency / doc-frequency / length / average / N statistics, "
-             "and that a phrase's idf is the sum over its terms (both decided by the check's recording similarity and by "
-             "C06_score_statistics for single terms).",
+        note=COMMON_NOTE + "numpy log (idf) is an input; IEEE-754 conformance of the CPU (no FMA contraction) assumed. The model hands total and N to the "
+             "similarity where the code hands the float32 average (C02_average_is_rounded_mean relates them); the idf VALUE is "
+             "computed by numpy's log and is an input of the model (the recording similarity of the check compares the "
+             "statistics, the bit-exact score comparison the idf).",
         technique="Coq proof over Flocq binary32 and R + bit-exact correspondence",
     ),
     "C08": dict(
